@@ -10,6 +10,7 @@ from .. import lib, ref
 from ..ref import Graph
 
 LEVEL = "exploration"
+TECHNIQUE = 'runtime monitoring: equality/hash/constructor monitor against reference structural equality over generated pair classes (identical, equal copy, one bit / endpoint / solution cell / kind / metadata different) and endpoint coordinates inside and outside the grid'
 RULE = ("pairs of maze objects of all three kinds (identical object, equal copies, one connection bit flipped, one endpoint moved, "
         "one solution cell changed, different solution length, different grid shape, different kind with the same data, "
         "metadata-only difference) on shapes 1x1..8x8 incl. oblong: ==/!= must not raise and must equal reference equality "
